@@ -44,6 +44,13 @@ theorem quiescent_returned {n : Nat} {c : Tid} {s : St} (h : Reachable n c s) (h
     s.pcs c = .returned :=
   ApplyP.quiescent_returned h hn hent hstuck
 
+/-- **the completion event is signalled by at most one thread, once**: never two threads at the signalling call and nobody
+    there once the event has been signalled (the event lives in the caller's `da`; a second signal could land after the
+    caller destroyed it) -/
+theorem signal_once {n : Nat} {c : Tid} {s : St} (h : Reachable n c s) :
+    s.sh.subs.length ≤ 1 ∧ (s.sh.signalled = true → s.sh.subs = []) :=
+  ApplyP.signal_once h
+
 /-- **the serial path** (`_dispatch_apply_serial`: `size_t idx = 0; do { f(idx) } while (++idx < iter);`) invokes
     0, 1, …, iter-1 in that order, each once, and ends after exactly iter passes - for every count the index word can
     hold -/
